@@ -17,6 +17,8 @@ func init() { components["rom"] = func(string) { runRom() } }
 
 type romOp struct {
 	kind byte // O R W F S   (S = switch to slot n: several readers / writers of one ROM stay alive side by side)
+	// P a v : the caller sets image byte a to v (header fields ...) ; Q a n vs : a hashed run of n bytes at a ;
+	// N : the ROM object is (re)built through snes.NewROM over the current image ; H f v : the caller edits field f of the parsed ROM.Header
 	rw   byte // for O: 'r' or 'w'
 	a, n uint32
 	vs   uint32
@@ -32,6 +34,14 @@ func (o romOp) String() string {
 		return fmt.Sprintf("W %x %x", o.n, o.vs)
 	case 'S':
 		return fmt.Sprintf("S %x", o.n)
+	case 'P':
+		return fmt.Sprintf("P %x %x", o.a, o.n)
+	case 'Q':
+		return fmt.Sprintf("Q %x %x %x", o.a, o.n, o.vs)
+	case 'N':
+		return "N"
+	case 'H':
+		return fmt.Sprintf("H %x %x", o.a, o.n)
 	}
 	return "F"
 }
@@ -83,10 +93,11 @@ func romImage(size, seed uint32) []byte {
 // execRom runs the case on the real snes.ROM and renders protocol replies; it also checks the property's own
 // oracle ("no byte outside the window is exposed or changed", "write is all-or-nothing", ...) independently of the model.
 func execRom(c romCase) (out []string, oracle string) {
-	orig := romImage(c.size, c.seed)
+	orig := append([]byte{}, romImage(c.size, c.seed)...)
 	contents := make([]byte, len(orig))
 	copy(contents, orig)
 	rom := &snes.ROM{Contents: contents, HeaderOffset: 0x7FB0}
+	viaNew := false
 	type slot struct {
 		rd         io.Reader
 		wr         io.Writer
@@ -112,6 +123,39 @@ func execRom(c romCase) (out []string, oracle string) {
 					slots[o.n] = &slot{}
 				}
 				cs = slots[o.n]
+				out[i] = "ok"
+			case 'P', 'Q':
+				// the caller edits the image itself (not through a writer); a ROM built by NewROM re-reads its header
+				if o.kind == 'P' {
+					contents[o.a], orig[o.a] = byte(o.n), byte(o.n)
+				} else {
+					for j := uint32(0); j < o.n; j++ {
+						v := prng.Hash(uint64(o.vs), j)
+						contents[o.a+j], orig[o.a+j] = v, v
+					}
+				}
+				if viaNew {
+					rom.ReadHeader()
+				}
+				out[i] = "ok"
+			case 'N':
+				if nr, err := snes.NewROM("x", contents); err == nil {
+					rom, viaNew = nr, true
+				}
+				out[i] = "ok"
+			case 'H':
+				switch o.a {
+				case 0:
+					rom.Header.ROMSize = byte(o.n)
+				case 1:
+					rom.Header.MapMode = byte(o.n)
+				case 2:
+					rom.Header.RAMSize = byte(o.n)
+				case 3:
+					rom.Header.CartridgeType = byte(o.n)
+				default:
+					rom.Header.OldMakerCode = byte(o.n)
+				}
 				out[i] = "ok"
 			case 'O':
 				cs.rd, cs.wr = nil, nil
@@ -161,6 +205,11 @@ func execRom(c romCase) (out []string, oracle string) {
 					if err == nil && n == 0 && o.n > 0 {
 						oracle = fmt.Sprintf("op %d: Read returned (0, nil) for a non-empty buffer", i)
 					}
+					// the reader yields the image bytes up to the end of the bank and only then end-of-file (the last byte of the bank may
+					// be missing: observation D4, the code's exclusive bound is $7FFF)
+					if certain := (cs.winS&^0x7FFF | 0x7FFF) - cs.winS; err != nil && cs.rpos < certain {
+						oracle = fmt.Sprintf("op %d: reader reported %s after %#x bytes although the bank window of the image holds %#x more", i, errName(err), cs.rpos, certain-cs.rpos)
+					}
 				} else if n != 0 || err != io.ErrUnexpectedEOF {
 					oracle = fmt.Sprintf("op %d: offset below $8000 must fail with unexpected EOF", i)
 				}
@@ -191,7 +240,11 @@ func execRom(c romCase) (out []string, oracle string) {
 						oracle = fmt.Sprintf("op %d: offset below $8000 must fail with unexpected EOF", i)
 					}
 				} else {
+					// successive writes are stored: a write that fits into what is left of the bank window is accepted
+					fits := cs.wpos+uint32(len(p)) <= (cs.winS&^0x7FFF|0x7FFF)-cs.winS
 					switch {
+					case fits && (err != nil || n != len(p)):
+						oracle = fmt.Sprintf("op %d: a write of %#x bytes at window position %#x fits in the bank but was not stored (n=%d err=%v)", i, len(p), cs.wpos, n, err)
 					case err == nil && n == len(p):
 						for j := 0; j < n; j++ {
 							a := cs.winS + cs.wpos + uint32(j)
@@ -356,8 +409,104 @@ func genRomCase(r *prng.R, rep *report.Report) romCase {
 			rep.Count("objects interleaved")
 		}
 	}
+	// header-dependent behaviour: most histories run on a ROM object built by NewROM over an image whose header fields (ROM size
+	// byte $7FD7, map mode, RAM size, cartridge type, version markers, vectors) take small / boundary / random values; later the
+	// caller may edit the image's header bytes or the parsed Header while readers and writers are alive
+	if r.Chance(75) {
+		var pre []romOp
+		switch r.N(4) {
+		case 0:
+			pre = append(pre, romOp{kind: 'Q', a: 0x7FB0, n: 0x50, vs: uint32(r.N(1 << 16))}) // a wholly random header
+			rep.Count("image header: random 80 bytes")
+		case 1:
+			rep.Count("image header: background bytes")
+		default:
+			for _, f := range headerFieldPokes(r, c.size, rep) {
+				pre = append(pre, f)
+			}
+		}
+		pre = append(pre, romOp{kind: 'N'})
+		rep.Count("ROM built by NewROM")
+		c.ops = append(pre, c.ops...)
+		for k := r.N(3); k > 0; k-- {
+			// between two operations of the history
+			at := len(pre) + r.N(len(c.ops)-len(pre)+1)
+			var e romOp
+			if r.Bool() {
+				e = romOp{kind: 'H', a: uint32(r.N(5)), n: uint32(romSizeByte(r, c.size))}
+				rep.Count("parsed Header edited mid-history")
+			} else {
+				e = headerFieldPokes(r, c.size, rep)[0]
+				rep.Count("image header byte edited mid-history")
+			}
+			c.ops = append(c.ops[:at], append([]romOp{e}, c.ops[at:]...)...)
+		}
+	} else {
+		rep.Count("ROM built as a literal (zero Header)")
+	}
 	c.ops = append(c.ops, romOp{kind: 'F'})
 	return c
+}
+
+// romSizeByte: values of the ROM size byte around the size of the image (1 KiB << v): exact, one below / above, far too small,
+// shift counts at and beyond the width of the arithmetic, random
+func romSizeByte(r *prng.R, size uint32) byte {
+	k := 0
+	for (uint32(1024) << uint(k)) < size {
+		k++
+	}
+	switch r.N(10) {
+	case 0:
+		return 0
+	case 1:
+		return byte(k)
+	case 2:
+		return byte(max(0, k-1))
+	case 3:
+		return byte(k + 1)
+	case 4:
+		return byte(r.N(k + 1))
+	case 5:
+		return []byte{0x15, 0x16, 0x17, 0x1F, 0x20, 0x7F, 0x80, 0xFF}[r.N(8)]
+	case 6:
+		return byte(8 + r.N(6))
+	default:
+		return r.U8()
+	}
+}
+
+// headerFieldPokes: image bytes of the header fields that describe the cartridge; the first one is always the ROM size byte
+func headerFieldPokes(r *prng.R, size uint32, rep *report.Report) []romOp {
+	sz := romSizeByte(r, size)
+	switch {
+	case (uint64(1024)<<sz)&0xFFFFFFFF < uint64(size):
+		rep.Count("image header: declared ROM size below the image size")
+	case uint64(1024)<<sz == uint64(size):
+		rep.Count("image header: declared ROM size equals the image size")
+	default:
+		rep.Count("image header: declared ROM size above the image size")
+	}
+	ops := []romOp{{kind: 'P', a: 0x7FD7, n: uint32(sz)}}
+	if r.Chance(70) {
+		ops = append(ops, romOp{kind: 'P', a: 0x7FD5, n: uint32([]byte{0x20, 0x21, 0x30, 0x31, 0x22, 0x23, 0x25, 0x35, 0x00, 0xFF}[r.N(10)])})
+	}
+	if r.Chance(50) {
+		ops = append(ops, romOp{kind: 'P', a: 0x7FD8, n: uint32([]byte{0, 1, 3, 5, 7, 8, 0x20, 0xFF}[r.N(8)])})
+	}
+	if r.Chance(40) {
+		ops = append(ops, romOp{kind: 'P', a: 0x7FD6, n: uint32([]byte{0, 1, 2, 3, 0x13, 0x35, 0xF3, 0xFF}[r.N(8)])})
+	}
+	if r.Chance(40) {
+		ops = append(ops, romOp{kind: 'P', a: 0x7FDA, n: uint32([]byte{0x33, 0x01, 0x00}[r.N(3)])}, romOp{kind: 'P', a: 0x7FD4, n: uint32([]byte{0, 0x20, 0x41}[r.N(3)])})
+	}
+	if r.Chance(30) {
+		// reset vector / checksum pair
+		ops = append(ops, romOp{kind: 'P', a: 0x7FFC, n: uint32(r.U8())}, romOp{kind: 'P', a: 0x7FFD, n: uint32([]byte{0x00, 0x7F, 0x80, 0xFF}[r.N(4)])})
+		ck := r.U16()
+		ops = append(ops, romOp{kind: 'P', a: 0x7FDE, n: uint32(ck & 0xFF)}, romOp{kind: 'P', a: 0x7FDF, n: uint32(ck >> 8)},
+			romOp{kind: 'P', a: 0x7FDC, n: uint32(^ck & 0xFF)}, romOp{kind: 'P', a: 0x7FDD, n: uint32(^ck >> 8)})
+	}
+	return ops
 }
 
 func shrinkRom(c romCase, fails func(romCase) bool) romCase {
@@ -389,6 +538,25 @@ func runRom() {
 	}
 	cases = append(cases, romCase{0x18000, 1, []romOp{{kind: 'O', rw: 'r', a: 0x00FFF0}, {kind: 'R', n: 2}, {kind: 'S', n: 1}, {kind: 'O', rw: 'r', a: 0x018000}, {kind: 'R', n: 3},
 		{kind: 'S', n: 0}, {kind: 'R', n: 4}, {kind: 'S', n: 2}, {kind: 'O', rw: 'w', a: 0x00FFF4}, {kind: 'W', n: 3, vs: 5}, {kind: 'S', n: 0}, {kind: 'R', n: 0x20}, {kind: 'R', n: 1}, {kind: 'F'}}})
+	// directed: an image that holds more banks than its header declares (and the opposite), every bank read to its end and written
+	for _, sz := range []uint32{0, 1, 5, 6, 7, 9, 0x16, 0xFF} {
+		for _, viaNew := range []bool{true, false} {
+			c := romCase{size: 0x20000, seed: 2}
+			c.ops = append(c.ops, romOp{kind: 'P', a: 0x7FD7, n: sz}, romOp{kind: 'P', a: 0x7FD5, n: 0x20})
+			if viaNew {
+				c.ops = append(c.ops, romOp{kind: 'N'})
+			} else {
+				c.ops = append(c.ops, romOp{kind: 'H', a: 0, n: sz})
+			}
+			for bank := uint32(0); bank < 4; bank++ {
+				c.ops = append(c.ops, romOp{kind: 'O', rw: 'r', a: bank<<16 | 0x8000}, romOp{kind: 'R', n: 0x10}, romOp{kind: 'R', n: 0x9000}, romOp{kind: 'R', n: 1},
+					romOp{kind: 'O', rw: 'w', a: bank<<16 | 0xFF00}, romOp{kind: 'W', n: 0x20, vs: 7 + bank}, romOp{kind: 'W', n: 0xDF, vs: 3},
+					romOp{kind: 'O', rw: 'r', a: bank<<16 | 0xFF00}, romOp{kind: 'R', n: 0x100})
+			}
+			c.ops = append(c.ops, romOp{kind: 'F'})
+			cases = append(cases, c)
+		}
+	}
 	for i := 0; i < n; i++ {
 		cases = append(cases, genRomCase(r.Fork(), rep))
 	}
@@ -407,6 +575,7 @@ func runRom() {
 	}
 	distinct := map[string]bool{}
 	var ops int64
+	nviol := 0
 	for i, c := range cases {
 		got, orc := execRom(c)
 		ops += int64(len(c.ops))
@@ -423,6 +592,9 @@ func runRom() {
 			rep.Sample(map[string]string{"case": c.String(), "go": strings.Join(got, ";")})
 		}
 		if orc != "" {
+			nviol++
+		}
+		if orc != "" && nviol <= 25 {
 			m := shrinkRom(c, func(x romCase) bool { _, o := execRom(x); return o != "" })
 			g, o := execRom(m)
 			rep.Add(report.Finding{Property: "C10", Kind: "violation", Clause: "ROM reader/writer io contract (Go code vs property oracle): " + o,
@@ -436,7 +608,9 @@ func runRom() {
 	rep.Evaluations = ops
 	rep.Distinct = int64(len(distinct))
 	rep.CountN("cases", int64(len(cases)))
-	rep.Rule = "random reader/writer histories on images of 32 KiB..256 KiB (thorough: up to 4 MiB): offsets below $8000, at $8000, within 6 bytes of the bank end; " +
+	rep.Rule = "random reader/writer histories on images of 32 KiB..256 KiB (thorough: up to 4 MiB); three quarters of the ROM objects are built by NewROM over images whose header fields " +
+		"(ROM size byte below / equal / above the image size and at shift-width boundaries, map mode, RAM size, cartridge type, version markers, vectors, checksum) are set, wholly random or background, " +
+		"the image header bytes and the parsed Header are edited between operations; the oracle also demands that the reader reaches the end of the bank window and that a fitting write is stored; offsets below $8000, at $8000, within 6 bytes of the bank end; " +
 		"a third of the writes go through io.Copy; half of the histories interleave the operations of several live readers / writers of the same ROM; read/write lengths 0, remaining-1, remaining, remaining+1..3 and small; write-then-read-back; banks outside the image; whole image compared after every write. " +
 		"evaluations = operations; distinct_nontrivial = distinct (op kind, reply prefix) sequences"
 	rep.Emit()
